@@ -204,7 +204,7 @@ class PatchelfPostInstall(RpathTool):
 # copied *into* its staged path, file by file relative to the directory (structure kept); then the post-install step of
 # every entry that has one.  The uninstall list is one removal command whose operands are exactly the paths the
 # install list creates: the staged path of each plain file, and staged directory + relative path for each file of a
-# directory -- never the directory itself, never anything else.
+# directory -- never the directory itself or a sub-directory listed among its members, never anything else.
 
 import bfg9000.builtins.install as INS
 from bfg9000.file_types import Directory as _Directory, File as _File
@@ -212,7 +212,7 @@ from bfg9000.file_types import Directory as _Directory, File as _File
 
 class InstallLists(RpathTool):
     properties = ('C15',)
-    SHAPES = ('file', 'directory-2', 'directory-0', 'file+post')
+    SHAPES = ('file', 'directory-2', 'directory-0', 'file+post', 'directory-3')     # directory-3: the third member is a sub-directory
 
     def cases(self):
         import itertools
@@ -230,7 +230,7 @@ class InstallLists(RpathTool):
                 n = int(shape[-1])
                 files = []
                 for j in range(n):
-                    files.append(Obj(_File, {'path': Obj(object, {'built_member': (tag, j), 'relpath': OpaqueFn(
+                    files.append(Obj(_Directory if j == 2 else _File, {'path': Obj(object, {'built_member': (tag, j), 'relpath': OpaqueFn(
                         'relpath', lambda I, a, k, tag=tag, j=j: Obj(object, {'relative': (tag, j), 'to_built': a[0].attrs.get('built')}))})}))
                 src = Obj(_Directory, {'path': srcpath, 'files': PList(files), 'install_kind': 'data', 'post_install': None, 'tag': tag})
             else:
@@ -331,7 +331,8 @@ class UninstallFiles(InstallLists):
         for i, shape in enumerate(shapes):
             tag = 'item%d' % i
             if shape.startswith('directory'):
-                want += [('member', tag, j) for j in range(int(shape[-1]))]
+                # (a member that is itself a directory is created by the copy but is not a file to remove)
+                want += [('member', tag, j) for j in range(int(shape[-1])) if j != 2]
             else:
                 want.append(('file', tag))
         ok = ops is not None and len(ops) == len(want)
